@@ -254,9 +254,12 @@ def build(spec, made=None):
     if tag == "matrix":
         return keep(np.matrix(B(spec[1])))
     if tag == "randomstate":
-        r = np.random.RandomState(spec[1])
+        # optional 4th field: the bit generator the RandomState is created over (default: MT19937, as RandomState(seed))
+        r = np.random.RandomState(getattr(np.random, spec[3])(spec[1])) if len(spec) > 3 else np.random.RandomState(spec[1])
         for _ in range(spec[2]):
             r.rand()
+        if len(spec) > 3 and spec[2] % 2:
+            r.normal()       # leaves a cached gaussian behind (has_gauss)
         return keep(r)
     if tag == "generator":
         bg = getattr(np.random, spec[1])(spec[2])
